@@ -51,7 +51,8 @@ func hsUDP(last byte) netip.AddrPort {
 func hsNewWorld(t testing.TB, retries int) *hsWorld {
 	w := &hsWorld{vNet: vNewNet(t), idxName: map[uint32]int{}, msgName: map[string]int{}, byMid: map[int]*vDatagram{}, retries: retries,
 		addrName: map[netip.Addr]string{}, udpName: map[netip.AddrPort]string{}}
-	for k, v := range map[string]string{"10.128.0.1": "a1", "10.129.0.1": "a2", "10.128.0.2": "b1", "10.129.0.2": "b2", "10.128.0.3": "m1"} {
+	for k, v := range map[string]string{"10.128.0.1": "a1", "10.129.0.1": "a2", "10.128.0.2": "b1", "10.129.0.2": "b2", "10.128.0.3": "m1",
+		"10.128.0.5": "p1", "fd00::5": "p2", "10.128.0.6": "s1"} {
 		w.addrName[netip.MustParseAddr(k)] = v
 	}
 	shm := func(mm map[string][]string) m {
@@ -71,6 +72,7 @@ func hsNewWorld(t testing.TB, retries int) *hsWorld {
 		}
 	}
 	ua, ub, um, ux := hsUDP(1).String(), hsUDP(2).String(), hsUDP(3).String(), hsUDP(9).String()
+	up, us := hsUDP(5).String(), hsUDP(6).String()
 	_ = ux
 	add := func(name, nets string, udp netip.AddrPort, ca cert.Certificate, caKey []byte, static m) {
 		base := common(static)
@@ -84,10 +86,33 @@ func hsNewWorld(t testing.TB, retries int) *hsWorld {
 		w.udpName[udpAddr] = name
 	}
 	add("A", "10.128.0.1/24, 10.129.0.1/24", hsUDP(1), w.CA, w.CAKey, shm(map[string][]string{"10.128.0.2": {ub, um}, "10.129.0.2": {ub}, "10.128.0.3": {um}}))
-	add("B", "10.128.0.2/24, 10.129.0.2/24", hsUDP(2), w.CA, w.CAKey, shm(map[string][]string{"10.128.0.1": {ua}, "10.129.0.1": {ua}, "10.128.0.3": {um}}))
+	add("B", "10.128.0.2/24, 10.129.0.2/24", hsUDP(2), w.CA, w.CAKey, shm(map[string][]string{"10.128.0.1": {ua}, "10.129.0.1": {ua}, "10.128.0.3": {um}, "10.128.0.5": {up}}))
 	add("M", "10.128.0.3/24", hsUDP(3), w.CA, w.CAKey, shm(map[string][]string{"10.128.0.1": {ua}, "10.129.0.1": {ua}, "10.128.0.2": {ub}, "10.129.0.2": {ub}}))
 	ca2, _, caKey2, _ := cert_test.NewTestCaCert(cert.Version2, cert.Curve_CURVE25519, time.Now().Add(-time.Hour), time.Now().Add(1000*time.Hour), nil, nil, []string{})
 	add("X", "10.128.0.2/24", hsUDP(9), ca2, caKey2, shm(map[string][]string{"10.128.0.1": {ua}, "10.129.0.1": {ua}}))
+	// S: certified for s1 and for fd00::5, which is one of P's own addresses
+	add("S", "10.128.0.6/24, fd00::5/64", hsUDP(6), w.CA, w.CAKey, shm(map[string][]string{"10.128.0.5": {up}}))
+	// P: a v1 certificate (10.128.0.5) it initiates with and a v2 certificate (10.128.0.5, fd00::5) under the same key
+	{
+		nb, na := time.Now().Add(-time.Hour), time.Now().Add(500*time.Hour)
+		p1 := netip.MustParsePrefix("10.128.0.5/24")
+		c1, _, keyPEM, _ := cert_test.NewTestCert(cert.Version1, cert.Curve_CURVE25519, w.CA, w.CAKey, "P", nb, na, []netip.Prefix{p1}, nil, []string{})
+		tbs := &cert.TBSCertificate{Version: cert.Version2, Curve: c1.Curve(), Name: "P", Networks: []netip.Prefix{p1, netip.MustParsePrefix("fd00::5/64")},
+			NotBefore: time.Unix(nb.Unix(), 0), NotAfter: time.Unix(na.Unix(), 0), PublicKey: c1.PublicKey()}
+		c2, err := tbs.Sign(w.CA, w.CA.Curve(), w.CAKey)
+		if err != nil {
+			t.Fatalf("verif: sign P v2: %v", err)
+		}
+		base := common(shm(map[string][]string{"10.128.0.6": {us}, "10.128.0.2": {ub}}))
+		base["punchy"] = m{"punch": false, "respond": false}
+		base["lighthouse"] = m{"interval": 0}
+		base["logging"] = m{"level": "error"}
+		base["pki"] = m{"initiating_version": 1}
+		base["listen"] = m{"send_recv_error": "never", "host": hsUDP(5).Addr().String(), "port": 4242}
+		ctrl, vpn, _, cfg := newServer([]cert.Certificate{w.CA}, []cert.Certificate{c1, c2}, keyPEM, base)
+		nd := &vNode{Name: "P", Ctrl: ctrl, Vpn: vpn, UDP: hsUDP(5), Cfg: cfg, stop: make(chan struct{})}
+		w.Nodes["P"], w.byUDP[nd.UDP], w.udpName[nd.UDP] = nd, nd, "P"
+	}
 	return w
 }
 
@@ -328,8 +353,11 @@ func hsDrive(w *hsWorld, rnd *rand.Rand, steps, tr int, res *vResult) {
 		"B": {addr("10.128.0.1"), addr("10.129.0.1"), addr("10.128.0.3")},
 		"M": {addr("10.128.0.1"), addr("10.128.0.2")},
 		"X": {addr("10.128.0.1")},
+		"P": {addr("10.128.0.6"), addr("10.128.0.2")},
+		"S": {addr("10.128.0.5")},
 	}
-	nodes := []*vNode{A, B, M, X}
+	P, S := w.Nodes["P"], w.Nodes["S"]
+	nodes := []*vNode{A, B, M, X, P, S}
 	profile := tr % 4 // 0 mixed, 1 replay heavy, 2 lossy (retries, give-up, queue), 3 simultaneous initiators
 	tag := 0
 	if profile == 1 {
@@ -422,17 +450,17 @@ func hsDrive(w *hsWorld, rnd *rand.Rand, steps, tr int, res *vResult) {
 				w.deliver(d, to, d.From)
 			}
 		case r < 76:
-			// misdelivery / spoofed source: any datagram to any node from another node's address
+			// misdelivery: any datagram ever emitted, to any node (from its true source: a spoofed source makes the
+			// receiver learn a new underlay address for the peer, which is the remote-list checks' subject, C36/C37)
 			if len(w.Store) == 0 {
 				continue
 			}
 			d := w.Store[rnd.Intn(len(w.Store))]
 			to := nodes[rnd.Intn(len(nodes))]
-			via := nodes[rnd.Intn(len(nodes))]
-			if via == to {
+			if to.UDP == d.From {
 				continue
 			}
-			w.deliver(d, to, via.UDP)
+			w.deliver(d, to, d.From)
 		case r < 82 && len(w.inflight) > 0:
 			k := rnd.Intn(len(w.inflight)) // loss
 			w.inflight = append(w.inflight[:k], w.inflight[k+1:]...)
